@@ -131,10 +131,16 @@ def main():
              "kind_free_text": "explicit-state model checker for the TLA+ specifications in /verif/specs (exhaustive MC, relation dumps, trace validation, simulation)"},
             {"name": "vfw", "path": "/verif/vfw", "serves_properties": sorted(CLAIMED),
              "kind_free_text": "Python conformance harness: drives the real AgileRL objects along TLC-generated behaviours, records projected traces, feeds them back to TLC"},
+            {"name": "apalache", "path": "/usr/local/bin/apalache-mc", "serves_properties": ["C09"],
+             "kind_free_text": "symbolic model checker: inductive invariant of specs/Ring_Ind.tla (ring buffer, histories of any length); skipped with a note in the evidence when the tool is absent"},
         ],
         "checks": [],
         "not_applicable": [],
-        "notes": "All checks: ./check <id> --tier quick|thorough. Exit 0 held / 1 VIOLATION / 2 machinery failure. known_findings.json lists genuine defects (fixed or recorded).",
+        "notes": ("All checks: ./check <id> --tier quick|thorough. Exit 0 held / 1 VIOLATION / 2 machinery failure. known_findings.json lists genuine "
+                  "defects (fixed or recorded). Beyond the listed properties the specification has grown by ./check X01 (RSNorm / RunningMeanStd "
+                  "state machine, specs/RSNorm*.tla) and ./check X02 (mutation-method registry and MutationContext, specs/MutReg*.tla); their "
+                  "evidence is written to evidence/extras/ and they are described in DESIGN.md section 15. seeded/ holds the independently seeded "
+                  "changes used to validate the checks (DESIGN.md section 14)."),
     }
     for pid in ALL:
         if pid in CLAIMED:
